@@ -1,0 +1,17 @@
+//go:build verif
+
+package prc
+
+import "sort"
+
+// VerifAddresses is a read-only accessor for the verification harness in /verif: the logical
+// addresses currently registered in the local registry, sorted.
+func (rc *ResourceController) VerifAddresses() []LogicalAddress {
+	var out []LogicalAddress
+	rc.processes.Range(func(key LogicalAddress, _ Process) bool {
+		out = append(out, key)
+		return true
+	})
+	sort.Strings(out)
+	return out
+}
